@@ -52,11 +52,19 @@ pub const DIRS: [(&str, &[(&str, &str)]); 6] = [
     ),
 ];
 
-pub const MANUAL: [(&str, &str); 3] = [
+pub const MANUAL: [(&str, &str); 4] = [
     ("m.html", "{% block t %}M{% endblock %}|{{ v }}"),
     ("z.html", "Z[{% include \"a.html\" %}]"),
     ("y.html", "Y{{ <X label={v} /> }}"),
+    // a name the globs carry too, with the very text the private directory's first variant has:
+    // added by hand AFTER a load it replaces the glob's template and is from then on a hand-added
+    // one (it survives the next load even when the file is gone); a later load that finds a file of
+    // that name replaces it in turn. (Seeded change C10-12 made add_raw_template return early when
+    // name and text were already registered - the template stayed the glob's.)
+    ("a.html", "A0"),
 ];
+/// index of the hand-added template whose name the globs carry too
+pub const SHARED_NAME: usize = 3;
 
 const UNIVERSE: [&str; 9] =
     ["a.html", "b.html", "c.html", "d.html", "comps.html", "sub/s.html", "m.html", "z.html", "y.html"];
@@ -86,7 +94,7 @@ pub const VARIANTS: [(&str, &[(&str, &str)]); 5] = [
 
 /// Operations of the family with changing files.
 pub fn changing_ops() -> Vec<Op> {
-    let mut v = vec![Op::GlobChanging, Op::Glob(0), Op::Reload, Op::NoStar, Op::Manual(1)];
+    let mut v = vec![Op::GlobChanging, Op::Glob(0), Op::Reload, Op::NoStar, Op::Manual(1), Op::Manual(SHARED_NAME)];
     v.extend((0..VARIANTS.len()).map(Op::Disk));
     v
 }
@@ -111,24 +119,33 @@ pub struct State {
 }
 
 impl State {
+    /// The files of the current glob.
+    pub fn glob_files(&self) -> &'static [(&'static str, &'static str)] {
+        match self.glob {
+            254 => VARIANTS[self.loaded as usize].1,
+            k if (1..=DIRS.len() as u8).contains(&k) => DIRS[k as usize - 1].1,
+            _ => &[],
+        }
+    }
     pub fn templates(&self) -> Vec<(String, String)> {
         let mut m: BTreeMap<String, String> = BTreeMap::new();
+        for (n, s) in self.glob_files() {
+            m.insert(n.to_string(), s.to_string());
+        }
+        // a hand-added template is in the model only while it is the newer one
         for (i, (n, s)) in MANUAL.iter().enumerate() {
             if self.manual & (1 << i) != 0 {
                 m.insert(n.to_string(), s.to_string());
             }
         }
-        if (1..=DIRS.len() as u8).contains(&self.glob) {
-            for (n, s) in DIRS[self.glob as usize - 1].1 {
-                m.insert(n.to_string(), s.to_string());
-            }
-        }
-        if self.glob == 254 {
-            for (n, s) in VARIANTS[self.loaded as usize].1 {
-                m.insert(n.to_string(), s.to_string());
-            }
-        }
         m.into_iter().collect()
+    }
+    /// After a successful load: a file of the glob replaces a hand-added template of the same name.
+    fn loaded_over_manual(mut self) -> State {
+        if self.glob_files().iter().any(|(n, _)| *n == MANUAL[SHARED_NAME].0) {
+            self.manual &= !(1 << SHARED_NAME);
+        }
+        self
     }
     pub fn json(&self) -> Json {
         json!({
@@ -217,11 +234,11 @@ pub fn apply(t: &mut Tera, store: &Store, st: State, op: Op) -> Out {
 /// The state the call asks for (None: the call cannot succeed whatever the templates are).
 pub fn requested(st: State, op: Op) -> Option<State> {
     match op {
-        Op::Glob(k) => Some(State { glob: k as u8 + 1, ..st }),
+        Op::Glob(k) => Some(State { glob: k as u8 + 1, ..st }.loaded_over_manual()),
         Op::MatchesNothing => Some(State { glob: 255, ..st }),
         Op::NoStar | Op::Unbuildable => None,
-        Op::Reload => (st.glob != 0).then_some(State { loaded: if st.glob == 254 { st.disk } else { st.loaded }, ..st }),
-        Op::GlobChanging => Some(State { glob: 254, loaded: st.disk, ..st }),
+        Op::Reload => (st.glob != 0).then_some(State { loaded: if st.glob == 254 { st.disk } else { st.loaded }, ..st }.loaded_over_manual()),
+        Op::GlobChanging => Some(State { glob: 254, loaded: st.disk, ..st }.loaded_over_manual()),
         Op::Disk(v) => Some(State { disk: v as u8, ..st }),
         Op::Manual(i) => Some(State { manual: st.manual | (1 << i), ..st }),
     }
